@@ -65,6 +65,40 @@ macro_rules! fmt_shape {
         }
     };
 }
+// to_str_radix wrappers: reversed digit bytes -> text, '-' prepended for negative values only (digit production under a recorder)
+fn reversed_rec(_u: &BigUint, radix: u32) -> Vec<u8> {
+    unsafe { REC_RADIX = radix; }
+    vec![b'7', b'z', b'1']   // least significant first
+}
+macro_rules! to_str_shape {
+    ($name:ident, $neg:expr, $l:expr) => {
+        #[kani::proof]
+        #[kani::unwind(34)]
+        #[kani::stub(crate::biguint::convert::to_str_radix_reversed, reversed_rec)]
+        #[kani::stub(crate::biguint::verif_common::symbolic, crate::biguint::verif_common::yes)]
+        fn $name() {
+            let a0: [u64; $l] = vc::any_canon::<$l>();
+            let x = mkint($neg, &a0);
+            if !vc::symbolic() {
+                return;
+            }
+            let radix: u32 = kani::any();
+            kani::assume(radix >= 2 && radix <= 36);
+            let s = x.to_str_radix(radix);
+            let b = s.as_bytes();
+            let neg = $neg && $l > 0;
+            kani::assert(unsafe { REC_RADIX } == radix, "VERIF to_str_radix passed a different radix on");
+            kani::assert(b.len() == 3 + neg as usize, "VERIF to_str_radix length (sign handling)");
+            let o = neg as usize;
+            kani::assert((!neg || b[0] == b'-') && b[o] == b'1' && b[o + 1] == b'z' && b[o + 2] == b'7', "VERIF to_str_radix: not '-' + most-significant-first digits");
+            let u = vc::mk_from(&a0).to_str_radix(radix);
+            kani::assert(u.as_bytes() == [b'1', b'z', b'7'], "VERIF BigUint::to_str_radix: digits not reversed into most-significant-first order");
+        }
+    };
+}
+to_str_shape!(c06_q_to_str_wrap_m1, true, 1);
+to_str_shape!(c06_q_to_str_wrap_p2, false, 2);
+to_str_shape!(c06_q_to_str_wrap_z, false, 0);
 macro_rules! ufmt_shape {
     ($name:ident, $fmtstr:expr, $radix:expr, $p0:expr, $p1:expr, $plen:expr, $upper:expr) => {
         #[kani::proof]
